@@ -355,11 +355,24 @@ where
         check(&c.1, st)
     });
     run.absorb(out);
+    // (f) very long inputs (up to 3 MB), named by (shape, length)
+    let lens = gs::huge_lengths();
+    let lr = &lens;
+    let out = enumerate(
+        cfg,
+        "huge-inputs",
+        move |shard, nsh| (0..lr.len() * gs::HUGE_SHAPES).filter(move |i| i % nsh == shard).map(move |i| (i % gs::HUGE_SHAPES, lr[i / gs::HUGE_SHAPES])),
+        |c: &(usize, usize), st: &mut Stats| {
+            st.class("huge-input");
+            check(&gs::huge_input(c.0, c.1), st)
+        },
+    );
+    run.absorb(out);
 }
 
 pub fn run(cfg: &RunCfg) -> PropRun {
     let mut run = PropRun::default();
-    run.rule = "strings fed to Version::parse / FromStr / serde: (a) every string up to length 7 (quick) / 8 (thorough) over the 9-symbol alphabet \"019.-+av \" enumerated; (b) every single edit of generated canonical versions over a 58-character alphabet (ASCII token classes, control and multi-byte characters, characters whose low byte is ASCII); (c) a length/integer limit family (MAX_LENGTH-2..+4, MAX_SAFE_INTEGER-1..+1, u64::MAX, 2^64); (d) proptest spelled versions with 0..2 edits and token soup; (e) primed pairs: one spelling of a version is parsed first, then another spelling of the same version with 0..2 edits at its edges is judged (the verdict may not depend on the call history). Oracle: independent three-class recogniser (MUST accept with exactly the denoted fields / MAY accept (blanks, v prefix, hyphenless prerelease) / MUST reject). Non-trivial = accepted, or rejected although a proper prefix is a canonical version; distinct by input string.".into();
+    run.rule = "strings fed to Version::parse / FromStr / serde: (a) every string up to length 7 (quick) / 8 (thorough) over the 9-symbol alphabet \"019.-+av \" enumerated; (b) every single edit of generated canonical versions over a 58-character alphabet (ASCII token classes, control and multi-byte characters, characters whose low byte is ASCII); (c) a length/integer limit family (MAX_LENGTH-2..+4, MAX_SAFE_INTEGER-1..+1, u64::MAX, 2^64); (d) proptest spelled versions with 0..2 edits and token soup; (e) primed pairs: one spelling of a version is parsed first, then another spelling of the same version with 0..2 edits at its edges is judged (the verdict may not depend on the call history); (f) 9 shapes of very long inputs at 34 lengths up to 3 MB (both sides of 2^9..2^20). Oracle: independent three-class recogniser (MUST accept with exactly the denoted fields / MAY accept (blanks, v prefix, hyphenless prerelease) / MUST reject). Non-trivial = accepted, or rejected although a proper prefix is a canonical version; distinct by input string.".into();
     run.assumptions = vec![
         "surrounding blanks, a leading v/V (+blanks) and a prerelease written without '-' are treated as MAY-accept: the statement leaves their acceptance open".into(),
         "an all-digit identifier with leading zeros may be read as number or as text".into(),
@@ -375,6 +388,10 @@ pub fn replay(campaign: &str, case: &Value) -> Result<(), Failure> {
         let _ = guard(|| Version::parse(&prime).is_ok());
         let _ = guard(|| nodejs_semver::Range::parse(&prime).is_ok());
         return check_string(&s, &mut Stats::default());
+    }
+    if campaign == "huge-inputs" {
+        let (shape, n): (usize, usize) = serde_json::from_value(case.clone()).map_err(bad)?;
+        return check_string(&gs::huge_input(shape, n), &mut Stats::default());
     }
     let s: String = serde_json::from_value(case.clone()).map_err(bad)?;
     check_string(&s, &mut Stats::default())
